@@ -44,11 +44,20 @@ def missState (cfg : Cfg) (script : Nat → Beh) (s : St) (k : Nat) : St :=
 theorem step_call_miss (cfg : Cfg) (script : Nat → Beh) (s : St) (k : Nat) (h : s.store.find k = none) :
     step cfg script s (.call k) =
       (missState cfg script s k, .got ((script s.execs.length).kind.res s.execs.length 0) false) := by
-  simp [step, h, missState]
+  simp [step, callStep, h, missState]
 
 theorem step_call_hit (cfg : Cfg) (script : Nat → Beh) (s : St) (k : Nat) (e : Entry) (h : s.store.find k = some e) :
     step cfg script s (.call k) = (s, .got (Res.dec e.val) true) := by
-  simp [step, h]
+  simp [step, callStep, h]
+
+/-- the state after a call whose caller was cancelled under thunder protection is the state after the same call -/
+theorem step_lost_state (cfg : Cfg) (script : Nat → Beh) (s : St) (k : Nat) :
+    (step cfg script s (.lost k)).1 = (step cfg script s (.call k)).1 := rfl
+
+/-- a call that was cut short leaves the state as it is -/
+theorem step_cut_state (cfg : Cfg) (script : Nat → Beh) (s : St) (k : Nat) : (step cfg script s (.cut k)).1 = s := by
+  simp only [step]
+  split <;> rfl
 
 theorem inv_miss {cfg : Cfg} {script : Nat → Beh} {s : St} (inv : Inv cfg script s) (k : Nat)
     (hmiss : s.store.find k = none) : Inv cfg script (missState cfg script s k) := by
@@ -162,6 +171,12 @@ theorem inv_step {cfg : Cfg} {script : Nat → Beh} {s : St} (inv : Inv cfg scri
     cases h : s.store.find k with
     | none => rw [step_call_miss cfg script s k h]; exact inv_miss inv k h
     | some e => rw [step_call_hit cfg script s k e h]; exact inv
+  | lost k =>
+    rw [step_lost_state]
+    cases h : s.store.find k with
+    | none => rw [step_call_miss cfg script s k h]; exact inv_miss inv k h
+    | some e => rw [step_call_hit cfg script s k e h]; exact inv
+  | cut k => rw [step_cut_state]; exact inv
 
 theorem inv_run {cfg : Cfg} {script : Nat → Beh} {s : St} (inv : Inv cfg script s) (ops : List Op) :
     Inv cfg script (run cfg script s ops).1 := by
